@@ -91,6 +91,7 @@ TOp ==
          exp  == SStep(st, lb)
          x    == st.s[c]
          faulted == lb.k > 0 /\ r.k = "exc" /\ r.what \in {"injected", "bad_alloc"}
+         thrownByMove == faulted /\ "tm" \in DOMAIN ev /\ ev.tm
          exs  == {y \in SSlots : obs[y].ex}
          parts == {c} \cup ({lb.d} \ {0})
          \* observed elements in the set's own order: a SmallSet keeps its inline elements unsorted, so its
@@ -107,9 +108,10 @@ TOp ==
               THEN "size()/empty() inconsistent with the iteration"
            ELSE IF ~faulted /\ \E y \in exs : cmpOf(y) # cmpExp(y)
               THEN "the set does not hold the comparator object it was given"
-           ELSE IF \E y \in exs : ~SortedBy(cmpOf(y), Canon(y))
+           \* (a move operation that throws leaves moved-from elements behind: no order can be demanded on that call)
+           ELSE IF ~thrownByMove /\ \E y \in exs : ~SortedBy(cmpOf(y), Canon(y))
               THEN "iteration not strictly increasing for the set's comparator (duplicate or misplaced element)"
-           ELSE IF \E y \in exs : SFlav[y] = "small" /\ obs[y].size > SN[y] /\ ~SortedBy(cmpOf(y), obs[y].elems)
+           ELSE IF ~thrownByMove /\ \E y \in exs : SFlav[y] = "small" /\ obs[y].size > SN[y] /\ ~SortedBy(cmpOf(y), obs[y].elems)
               THEN "large SmallSet does not iterate in comparator order"
            ELSE ""
          \* ---- values
@@ -148,7 +150,8 @@ TOp ==
          c02Fail ==
            IF Cat = "TC" THEN ""
            ELSE IF L2.bad # <<>> THEN L2.bad[1][1]
-           ELSE IF \E y \in exs : \E i \in 1..Len(obs[y].mv) : obs[y].mv[i] # 0 THEN "moved-from element visible"
+           \* (a move operation that throws inevitably leaves moved-from elements behind: waived on that call only)
+           ELSE IF ~thrownByMove /\ \E y \in exs : \E i \in 1..Len(obs[y].mv) : obs[y].mv[i] # 0 THEN "moved-from element visible"
            ELSE IF Cardinality(visIds) # nVis THEN "same object visible twice (bitwise duplicate)"
            ELSE IF DOMAIN L2.objs # visIds
                 THEN IF visIds \ DOMAIN L2.objs # {} THEN "visible element is not alive"
